@@ -228,12 +228,17 @@ Spline<K, smooth::SE2d> dubins_curve(const smooth::SE2d & gb, double R)
   Spline<K, smooth::SE2d> ret;
   for (auto i = 0u; i != 3; ++i) {
     const auto & [c, l] = desc[i];
+
+    // a segment that is too short to advance the end time would be stored with zero duration
+    const double T = c == detail::DubinsSegment::Straight ? l : R * l;
+    if (!(ret.t_max() + T > ret.t_max())) { continue; }
+
     if (c == detail::DubinsSegment::Left) {
-      ret += Spline<K, smooth::SE2d>::ConstantVelocity(Eigen::Vector3d(1, 0, 1. / R), R * l);
+      ret += Spline<K, smooth::SE2d>::ConstantVelocity(Eigen::Vector3d(1, 0, 1. / R), T);
     } else if (c == detail::DubinsSegment::Right) {
-      ret += Spline<K, smooth::SE2d>::ConstantVelocity(Eigen::Vector3d(1, 0, -1. / R), R * l);
+      ret += Spline<K, smooth::SE2d>::ConstantVelocity(Eigen::Vector3d(1, 0, -1. / R), T);
     } else {
-      ret += Spline<K, smooth::SE2d>::ConstantVelocity(Eigen::Vector3d(1, 0, 0), l);
+      ret += Spline<K, smooth::SE2d>::ConstantVelocity(Eigen::Vector3d(1, 0, 0), T);
     }
   }
   return ret;
